@@ -5,7 +5,8 @@ Run as a script in a THROW-AWAY process (it calls `set_defaults`, which mutates 
     /venv/bin/python harness/impl/c19_introspect.py <repo> <dir with the custom backend> [more sys.path dirs …]
 
 Prints one JSON object: the actions of `cli.initial_parser`, `cli.common_options_parser`, of the per-backend parsers
-(`cli.parser_for_backend`) for local/s3/s3c/b2 and the custom backend `vfy`, and of every sub-command of
+(`cli.parser_for_backend`) for local/s3/s3c/b2 and the custom backends `vfy` / `vfa` (+ those named in the environment
+variable C19_EXTRA_BACKENDS), and of every sub-command of
 `cli.make_main_parser`; mutual-exclusion groups; `Config` fields; per sub-command whether `set_defaults(**defaults)`
 reached the sub-parser and whether all parent actions are present.
 
@@ -72,7 +73,10 @@ def main():
 
     backends = {}
     backend_types = {}
-    for b in ('local', 's3', 's3c', 'b2', 'vfy'):
+    # `vfa` = the annotated probe (harness/impl/c19_backend); C19_EXTRA_BACKENDS = names of further custom backends on
+    # sys.path (the synthetic ones the harness generates; never set by the extractor)
+    extra_backends = [x for x in os.environ.get('C19_EXTRA_BACKENDS', '').split(',') if x]
+    for b in ('local', 's3', 's3c', 'b2', 'vfy', 'vfa', *extra_backends):
         try:
             bt, _ = utils.load_backend(b, 'x')
         except BaseException as e:  # noqa: BLE001
@@ -84,6 +88,9 @@ def main():
         bcfg_type = config.config_for_backend(bt, missing=missing)
         bcfg = bcfg_type()
         kwonly = [n for n, p in inspect.signature(bt).parameters.items() if p.kind is p.KEYWORD_ONLY]
+        annotations = {n: (None if p.annotation is p.empty else
+                           (repr(p.annotation) if isinstance(p.annotation, str) else getattr(p.annotation, '__name__', None) or repr(p.annotation)))
+                       for n, p in inspect.signature(bt).parameters.items()}
         fields = []
         for f in dataclasses.fields(bcfg):
             d = getattr(bcfg, f.name)
@@ -96,6 +103,7 @@ def main():
                 'default_repr': None if d is missing else repr(d),
                 'default_type': None if d is missing else type(d).__name__,
                 'default_tv': tv(d, missing),
+                'annotation': annotations.get(f.name),
                 'actions': [dump_action(a, bp._mutually_exclusive_groups) for a in acts],
             })
         backends[b] = {'short_name': bt.short_name, 'module': bt.__module__, 'kwonly': kwonly, 'fields': fields,
